@@ -51,7 +51,8 @@ func (c Collection) TryEqual(other Collection) (bool, bool) {
 			return false, true
 		}
 		if !okOne {
-			return true, true
+			// complex elements are structurally equal: go on to the next pair
+			continue
 		}
 		primitiveOne, err := From(c[i])
 		if err != nil {
